@@ -42,6 +42,8 @@ CLAIMED = {
          "static analysis: compositional symbolic exploration of adapter pairs + wrapper summaries vs. specification", "DESIGN.md §5 C17"),
  "C18": ("Sound static decision that every nil-error return of Run (single, batch, empty batch) carries a provably non-empty action.",
          "static analysis: path-sensitive return-predicate analysis over go/ssa", "DESIGN.md §5 C18"),
+ "C19": ("Sound static decision that the option, NodeBuilder and BatchNodeBuilder form of each setting have equal single-field effect summaries, that constructors apply every accepted option exactly once in argument order and accept the same option kinds, that option classes write disjoint fields (so any mixture is last-wins), that unconfigured nodes have the documented defaults and getters/constants agree, and that the lifecycle reads the configuration through the getters of the node being run.",
+         "static analysis: setter effect summaries across forms + constructor dispatch/apply-loop typestate + default summaries", "DESIGN.md §5 C19"),
  "C20": ("Sound static decision of the structural cause of the timing statement: a wait event with the node's GetWait() duration lies exactly between a failed attempt and the next (unless wait<=0 is established), none before the first or after the last attempt, every wait selects on ctx.Done(), no time.Sleep. Elapsed time itself is the time package's contract.",
          "static analysis: path-sensitive wait-event typestate over go/ssa", "DESIGN.md §5 C20"),
 }
